@@ -43,6 +43,10 @@ def Dim.ofText (cs : List Char) : Dim :=
 /-- the other operand of an operator -/
 inductive Operand where
   | int (n : Int)
+  /-- `True` / `False`: an `int` for `isinstance(other, int)` (so it goes down the `int` branches of
+      the overloads), but SymPy's own operators refuse it (`Symbol + True` is a TypeError raised
+      inside the method); only `sympy.Rational(1, other)` of `__truediv__` reads it as 1 / 0 -/
+  | bool (b : Bool)
   | dim (d : Dim)
   /-- neither `int` nor `SymbolicDim`: float, str, None, Fraction, ... -/
   | other
@@ -55,6 +59,8 @@ inductive Out where
   | notImpl
   /-- ValueError out of the lazy parse -/
   | raised
+  /-- TypeError raised INSIDE the method (SymPy refuses a bool operand); no reflected fallback -/
+  | typeErr
   deriving Repr, DecidableEq, Inhabited
 
 inductive BOp where
@@ -98,6 +104,13 @@ def dunder (o : BOp) (self : Dim) (oth : Operand) : Out :=
     | .expr a =>
       match oth with
       | .int n => .ok (.expr (fwdTreeInt o a n))
+      /- `isinstance(True, int)`: the `int` branch; `self._expr + True` raises TypeError, but
+         `sympy.Rational(1, True) * self._expr` (line 1606) is `1 * self._expr`, and
+         `Rational(1, False)` is `zoo` (no finite value, like `Rational(1, 0)`) -/
+      | .bool b =>
+        match o with
+        | .truediv => .ok (.expr (fwdTreeInt .truediv a (if b then 1 else 0)))
+        | _ => .typeErr
       | .dim .unknown => .ok .unknown
       | .dim .bad => .raised
       | .dim (.expr b) => .ok (.expr (fwdTree o a b))
@@ -112,6 +125,7 @@ def rdunder (o : BOp) (self : Dim) (oth : Operand) : Out :=
   | .add | .mul =>
     match oth with
     | .int n => dunder o self (.int n)
+    | .bool b => dunder o self (.bool b)
     | _ => .notImpl
   | _ =>
     match self with
@@ -120,6 +134,8 @@ def rdunder (o : BOp) (self : Dim) (oth : Operand) : Out :=
     | .expr a =>
       match oth with
       | .int n => .ok (.expr (revTree o n a))
+      /- `True - self._expr` etc.: SymPy's reflected operator refuses the bool -/
+      | .bool _ => .typeErr
       | _ => .notImpl
 
 def unTree : UOp → Expr → Expr
@@ -147,6 +163,7 @@ def Out.toPy : Out → PyRes
   | .ok d => .ok d
   | .notImpl => .typeError
   | .raised => .valueError
+  | .typeErr => .typeError
 
 /-- the Python expression `x op y` with a `SymbolicDim` on at least one side: a left `SymbolicDim`
     answers with its forward method (the right operand's reflected method is not consulted: for a
@@ -300,17 +317,21 @@ def Shape.isDynamicAt (sh : Shape) (i : Nat) : Option Bool := (sh[i]?).map (fun 
 
 inductive PyVal where
   | int (n : Int)
+  | bool (b : Bool)
   | dim (d : Dim)
   | other
   deriving Repr, DecidableEq, Inhabited
 
 def PyVal.toOperand : PyVal → Operand
   | .int n => .int n
+  | .bool b => .bool b
   | .dim d => .dim d
   | .other => .other
 
 inductive Prog where
   | int (n : Int)
+  /-- `True` / `False` -/
+  | bool (b : Bool)
   /-- `SymbolicDim(text)` -/
   | text (cs : List Char)
   /-- `SymbolicDim(None)` -/
@@ -339,6 +360,7 @@ def PyVal.asExpr : PyVal → Option Expr
 /-- run a program; operators with no `SymbolicDim` operand are outside the model (`typeError`) -/
 def Prog.run : Prog → ProgRes
   | .int n => .val (.int n)
+  | .bool b => .val (.bool b)
   | .text cs => .val (.dim (Dim.ofText cs))
   | .unknown => .val (.dim .unknown)
   | .other => .val .other
